@@ -126,6 +126,11 @@ fn shape(args: &[&str]) -> String {
             if op.starts_with("draws=") {
                 continue;
             }
+            if let Some(k) = op.strip_prefix("maxw=") {
+                // from now on the transport accepts at most k bytes per poll_write (short writes)
+                h.set_max_per_write(k.parse().ok().filter(|k: &usize| *k > 0));
+                continue;
+            }
             let res = if op == "S" {
                 sess.clone().start_client().await.is_ok()
             } else if op == "U" {
